@@ -608,6 +608,7 @@ struct Outcome {
     hook_points: u64,
     parsed: Option<(Vec<u8>, Vec<Hdr>)>, // the log (bytes, frames) as it was after the last call
     plan_cases: Vec<String>,             // CPlan terms (Model/NoopPlan.v): what the call planned vs the model planner
+    damaged: Vec<(usize, CFile)>,        // cache files the harness damaged since the caches of that thread were last removed
 }
 
 // ---------- monitor inside EventLog::append (rip_kernel::verif hook, points log.*) ----------
@@ -769,7 +770,10 @@ fn apply_call(env: &mut Env, call: &Call, out: &mut Outcome, dist: &mut Option<&
                     }
                 }
             }
-            let plan_prefix = if matches!(cp, Cp::Auto | Cp::AutoSchedule) && *th < created_ids(&hs).len() && out.plan_cases.len() < 4000 {
+            // the planner model assumes every cache but the checkpoint sidecar healthy: a damaged ordinal / message
+            // index makes the code replay the stream first, and then even a wrong checkpoint cache is bypassed
+            let others_healthy = !out.damaged.iter().any(|(t, f)| t == th && !matches!(f, CFile::Comp | CFile::CompIdx));
+            let plan_prefix = if matches!(cp, Cp::Auto | Cp::AutoSchedule) && *th < created_ids(&hs).len() && out.plan_cases.len() < 4000 && others_healthy {
                 let id = thread_id(&hs, *th, p.pick);
                 let stream: Vec<&Hdr> = hs.iter().filter(|h| h.kind == rip_kernel::StreamKind::Continuity && h.sid == id).collect();
                 plan_case_prefix(env, &id, &stream, p.stride, p.max_new)
@@ -805,6 +809,11 @@ fn apply_call(env: &mut Env, call: &Call, out: &mut Outcome, dist: &mut Option<&
             if let Some(id) = ids.get(*th) {
                 apply_fault(env, id, *x);
             }
+            if matches!(x, Fault::Delete) {
+                out.damaged.retain(|(t, _)| t != th); // every cache file gone: whatever is there afterwards was rebuilt
+            } else {
+                out.damaged.push((*th, CFile::Full));
+            }
             let xs = match x {
                 Fault::Delete => "XDelete",
                 Fault::CutLine => "XCutLine",
@@ -826,6 +835,9 @@ fn apply_call(env: &mut Env, call: &Call, out: &mut Outcome, dist: &mut Option<&
         Call::CacheFault { file, kind, th } => {
             let ids = created_ids(&hs);
             let done = ids.get(*th).map(|id| apply_cache_fault(env, id, *file, *kind)).unwrap_or(false);
+            if done {
+                out.damaged.push((*th, *file));
+            }
             // the model keeps the full sidecar only: a fault on a derived file has no counterpart there
             let th_c = coq_nat((*th).min(99) as u64);
             out.coq_calls.push(match (file, kind, done) {
@@ -923,7 +935,7 @@ fn apply_call(env: &mut Env, call: &Call, out: &mut Outcome, dist: &mut Option<&
 }
 
 fn new_outcome() -> Outcome {
-    Outcome { obs: vec![], coq_calls: vec![], violations: vec![], unmodelled: false, appended_by_silent: 0, oracle_checks: 0, final_frames: 0, big_lines: vec![], hook_points: 0, parsed: None, plan_cases: vec![] }
+    Outcome { obs: vec![], coq_calls: vec![], violations: vec![], unmodelled: false, appended_by_silent: 0, oracle_checks: 0, final_frames: 0, big_lines: vec![], hook_points: 0, parsed: None, plan_cases: vec![], damaged: vec![] }
 }
 
 fn run_case(calls: &[Call], dist: Option<&mut RunResult>) -> Outcome {
